@@ -934,10 +934,27 @@ func runFFSingle(w *World, o *Opts, tams []ffTamper) (adoptedValid, refused, for
 	j.node.Init()
 	vn.emitNodeUp(j, "fast-sync")
 	prev := j.State()
-	j.node.VTransition(_state.CatchingUp)
-	w.Emit(j.num, "StateChange", map[string]interface{}{"from": prev, "to": "CatchingUp", "why": "driver"}, nil)
-	trusted := map[string]bool{canonKey(w.parts[0].PubHex): true}
 	strangers := w.parts[2:]
+	if prev == "Joining" {
+		// a hostile answer to the join request: "accepted", with a self-made list of
+		// peers (the strangers that will sign the forged fast-forward responses).  An
+		// unauthenticated peer list must not become a reason to trust anybody.
+		vn.joinForge = func(req *bnet.JoinRequest) *bnet.JoinResponse {
+			ps := []*peers.Peer{}
+			for _, sp := range strangers {
+				ps = append(ps, sp.Peer)
+			}
+			return &bnet.JoinResponse{FromID: w.parts[0].ID, Accepted: true, AcceptedRound: 0, Peers: ps}
+		}
+		jerr := j.node.VJoin()
+		vn.joinForge = nil
+		w.Emit(j.num, "StateChange", map[string]interface{}{"from": prev, "to": j.State(), "why": fmt.Sprintf("hostile-join-response (err=%v)", jerr)}, nil)
+	}
+	if j.State() != "CatchingUp" {
+		j.node.VTransition(_state.CatchingUp)
+		w.Emit(j.num, "StateChange", map[string]interface{}{"from": prev, "to": "CatchingUp", "why": "driver"}, nil)
+	}
+	trusted := map[string]bool{canonKey(w.parts[0].PubHex): true}
 	for k := 1; k <= len(strangers); k += 2 {
 		st := strangers[:k]
 		if vn.tryFF(j, fmt.Sprintf("forged-by-%d-strangers-single-founder", k), func(server *NNode, resp *bnet.FastForwardResponse) {
